@@ -848,12 +848,76 @@ def start_nodes(ctx: Ctx):
     return n
 
 
+def drawn_start_nodes_layout(ctx: Ctx):
+    """C12.e a start-node selector that draws k nodes per instance at once (multinomial(mask, k) -> [B, k], topk, ...) must
+    hand them back in the layout of the replicated state, (start, instance): the two axes are exchanged (transpose / t / permute /
+    rearrange) before the result is flattened.  Flattened directly, row r gets the node drawn for instance r // k."""
+    import ast
+    n_sites = 0
+    for mi in sorted(ctx.repo.modules.values(), key=lambda m: m.relpath):
+        if not mi.relpath.startswith("rl4co/"):
+            continue
+        for fnode in [n for n in ast.walk(mi.tree) if isinstance(n, ast.FunctionDef) and "select_start_node" in n.name]:
+            for r in [x for x in ast.walk(fnode) if isinstance(x, ast.Return) and x.value is not None]:
+                # method chain of the returned expression, innermost first
+                chain, e = [], r.value
+                while isinstance(e, ast.Call) and isinstance(e.func, ast.Attribute):
+                    chain.append((e.func.attr, e))
+                    e = e.func.value
+                chain.reverse()
+                root_is_draw = isinstance(e, ast.Call) and ast.unparse(e.func).split(".")[-1] in ("multinomial", "topk", "randint", "rand") and len(e.args) >= 2
+                names = [c for c, _ in chain]
+                if not root_is_draw and not any(c in ("multinomial", "topk") for c in names):
+                    continue
+                flat_i = [i for i, c in enumerate(names) if c in ("view", "reshape", "flatten")]
+                if not flat_i:
+                    continue
+                n_sites += 1
+                swapped = any(c in ("transpose", "t", "permute", "T") for c in names[:flat_i[-1]]) or any(isinstance(x, ast.Attribute) and x.attr in ("T", "mT") for x in ast.walk(r.value))
+                ctx.repo.note(mi)
+                ctx.ob("C12.e", f"{fnode.name}:drawn-starts-in-start-major-order", swapped, f"{mi.relpath}:{r.lineno}",
+                       f"{ast.unparse(r.value)[:90]}: [B, k] draw " + ("transposed before it is flattened: rows run (start, instance)" if swapped else
+                       "flattened as it is: rows run (instance, start), but the replicated state runs (start, instance) -- a row gets a start node drawn from another instance's mask"),
+                       construct=f"{mi.relpath}:{fnode.name}:flatten-order")
+    if n_sites < 1:
+        raise AnalysisError("no start-node selector that flattens a [B, k] draw found (AntSystem.select_start_node_fn has one)")
+
+
+def select_best_whenever_expanded(ctx: Ctx):
+    """C12.f best-selection belongs to the expansion, not to the way the first action was chosen: pre_decoder_hook replicates
+    the batch whenever `num_starts >= 1` (forced start nodes for multi-start, the same instance k times for multi-sample);
+    post_decoder_hook must reduce it again under exactly `num_starts > 0 and select_best`.  A guard on `multistart` skips the
+    reduction for multi-sample decoding: k * B rollouts come back where B best ones were asked for."""
+    import ast
+    cls = ctx.repo.get_class("rl4co/utils/decoding.py", "DecodingStrategy")
+    post, pre = cls.methods.get("post_decoder_hook"), cls.methods.get("pre_decoder_hook")
+    if post is None or pre is None:
+        raise AnalysisError("DecodingStrategy.pre_decoder_hook / post_decoder_hook not found")
+    ctx.fn(post)
+    guards = [i for i in ast.walk(post.node) if isinstance(i, ast.If) and any(isinstance(c, ast.Call) and isinstance(c.func, ast.Attribute) and c.func.attr == "_select_best" for st in i.body for c in ast.walk(st))]
+    if len(guards) != 1:
+        raise AnalysisError(f"DecodingStrategy.post_decoder_hook: expected one guarded _select_best call, found {len(guards)}")
+    attrs = {x.attr for x in ast.walk(guards[0].test) if isinstance(x, ast.Attribute) and isinstance(x.value, ast.Name) and x.value.id == "self"}
+    # the expansion in pre_decoder_hook
+    exp = [i for i in ast.walk(pre.node) if isinstance(i, ast.If) and any(isinstance(c, ast.Call) and ast.unparse(c.func).split(".")[-1] == "batchify" for st in i.body for c in ast.walk(st))]
+    exp_attrs = set()
+    for i in exp:
+        exp_attrs |= {x.attr for x in ast.walk(i.test) if isinstance(x, ast.Attribute) and isinstance(x.value, ast.Name) and x.value.id == "self"}
+    ok = attrs == {"num_starts", "select_best"} and "num_starts" in exp_attrs
+    ctx.ob("C12.f", "DecodingStrategy.post_decoder_hook:select-best-whenever-expanded", ok, post.loc,
+           f"_select_best runs under a condition on {sorted(attrs)}; the batch is expanded under a condition on {sorted(exp_attrs)}" +
+           ("" if ok else " -- an expansion that this condition does not cover is handed back unreduced"),
+           construct="DecodingStrategy.post_decoder_hook:select-best-guard")
+
+
 def run(ctx: Ctx):
     helpers(ctx)
     n1 = einops_sites(ctx)
     n2 = arange_sites(ctx)
     factor_sites(ctx)
     expansion_sites(ctx)
+    drawn_start_nodes_layout(ctx)
+    select_best_whenever_expanded(ctx)
     n3 = start_nodes(ctx)
     ctx.extra["einops_batch_groups"] = n1
     ctx.extra["arange_sites"] = n2
